@@ -19,7 +19,7 @@ fn profile(thorough: bool) -> Profile {
         encaps: 8,
         encaps_for: 12,
         check: 5,
-        roundtrip: 3,
+        roundtrip: 7,
         bad_pct: 4,
         min_ops: 1,
         max_ops: if thorough { 50 } else { 25 },
